@@ -96,6 +96,11 @@ def r2_result_provenance(ctx):
         for a in atoms:
             r.check(q.novers(a[3]) == q.novers(payload), "compared-is-returned", "the header compared is the returned state's",
                     "the header compared belongs to %s, the state returned is %s" % (sig(a[3]), sig(payload)), body.where(a[0]))
+        if not q.calls_to(body, "UnsealedState::apply_tx_batch", "UnsealedState::apply_tx"):
+            # decided before anything about `basis` is read: without the call the block's transactions are never applied, whatever basis is
+            r.violation("batch-call", "apply_block never applies the block's transactions (no apply_tx_batch / apply_tx call): every block with transactions is refused, an empty "
+                        "block with a forged transaction list is judged by its header alone", where)
+            continue
         if basis[0] != "var":
             r.undecided("basis", "basis %s is not a plain variable" % sig(basis), where)
             continue
